@@ -49,7 +49,7 @@ var c15PipelineHeaders = map[string]string{
 
 func c15RuleSets(up string) []*rconfig.RuleSet {
 	rs := &rconfig.RuleSet{Version: "1alpha4", Name: "c15", MetaData: rconfig.MetaData{Source: "c15", Hash: []byte("c15")}}
-	for _, rw := range c15Rewrites {
+	for i, rw := range c15Rewrites {
 		be := &rconfig.Backend{Host: up}
 		if rw.Strip != "" || rw.Add != "" || len(rw.DelQ) > 0 || rw.Scheme != "" {
 			be.URLRewriter = &rconfig.URLRewriter{Scheme: rw.Scheme, PathPrefixToCut: rconfig.PrefixCutter(rw.Strip), PathPrefixToAdd: rconfig.PrefixAdder(rw.Add), QueryParamsToRemove: rw.DelQ}
@@ -57,6 +57,11 @@ func c15RuleSets(up string) []*rconfig.RuleSet {
 		rs.Rules = append(rs.Rules, rconfig.Rule{ID: rw.ID, EncodedSlashesHandling: rconfig.EncodedSlashesHandling(rw.Slashes),
 			Matcher: rconfig.Matcher{Routes: []rconfig.Route{{Path: "/" + rw.ID + "/**"}}}, Backend: be,
 			Execute: []config.MechanismConfig{{"authenticator": "anon"}, {"finalizer": "hdrs"}}})
+		if i%2 == 1 {
+			// every second rule has a pipeline which reads the request body (heimdall then buffers it instead of streaming it)
+			rl := &rs.Rules[len(rs.Rules)-1]
+			rl.Execute = append(rl.Execute, config.MechanismConfig{"finalizer": "bodyreader"})
+		}
 	}
 	return []*rconfig.RuleSet{rs}
 }
@@ -182,6 +187,8 @@ func TestC15(t *testing.T) {
 				hs[k] = v
 			}
 			c.Prototypes.Finalizers = append(c.Prototypes.Finalizers, config.Mechanism{ID: "hdrs", Type: "header", Config: config.MechanismConfig{"headers": hs}})
+			c.Prototypes.Finalizers = append(c.Prototypes.Finalizers, config.Mechanism{ID: "bodyreader", Type: "header",
+				Config: config.MechanismConfig{"headers": map[string]any{"X-Verif-Body-Read": "{{ if .Request.Body }}non-empty{{ else }}empty{{ end }}"}}})
 			if trusted {
 				c.Serve.Proxy.TrustedProxies = &[]string{"127.0.0.0/8"}
 			}
@@ -225,6 +232,9 @@ func TestC15(t *testing.T) {
 		}
 		reqID := nextReqID("c15")
 		hdrs := []app.Hdr{{Name: app.HdrReq, Value: reqID}}
+		if ct := []string{"", "text/plain", "application/octet-stream", "application/json", "application/x-www-form-urlencoded", "multipart/form-data; boundary=x"}[rng.IntN(6)]; ct != "" && body != nil {
+			hdrs = append(hdrs, app.Hdr{Name: "Content-Type", Value: ct})
+		}
 		collide := false
 		for name := range c15PipelineHeaders {
 			if rng.IntN(3) == 0 {
@@ -331,6 +341,9 @@ func TestC15(t *testing.T) {
 		}
 		if len(body) >= 1<<20 {
 			r.Count("one_mib_bodies", 1)
+		}
+		if len(body) > 0 && len(h.Header["X-Verif-Body-Read"]) > 0 {
+			r.Count("bodies_read_by_the_pipeline_and_forwarded", 1)
 		}
 		if h.Host != up.HostPort() {
 			r.Violation("host-not-forward-to-host", fmt.Sprintf("upstream Host %q, forward_to.host %q", h.Host, up.HostPort()), cs)
